@@ -1,0 +1,35 @@
+//go:build verif
+
+package engine
+
+// Contracts for govc (see /verif/DESIGN.md). Compiled only with -tags verif.
+
+//@ func readUvarint
+//@   property C16
+//@   tag decoder
+//@   alloc data
+//@   requires idx != nil && 0 <= *idx
+//@   ensures [total] true
+//@   ensures [advances-in-bounds] result1 == nil ==> old(*idx) < *idx && *idx <= len(data)
+//@   ensures [error-keeps-index] result1 != nil ==> *idx == old(*idx)
+//@   modifies *idx
+
+//@ func decodeRaftHardState
+//@   property C16
+//@   tag decoder inline-calls
+//@   alloc data
+//@   ensures [total] true
+
+//@ func decodeRaftSnapshot
+//@   property C16
+//@   tag decoder inline-calls
+//@   alloc data
+//@   ensures [total] true
+
+//@ func decodeRaftEntries
+//@   property C16
+//@   tag decoder inline-calls
+//@   alloc data
+//@   ensures [total] true
+//@   loop 1 invariant [idx-in-bounds] 0 <= idx && idx <= len(data)
+//@   loop 1 invariant [entries-bounded] 0 <= rangeint_iter && len(entries) <= rangeint_iter && rangeint_iter <= count && count <= len(data)
